@@ -99,8 +99,23 @@ class ArrV(Val):
       if not ok:
         raise PathDead()
       return ArrV(shape.term, self.dt, self.vals)
-    if name == 'flatten':
-      return FlatV(self)
+    if name in ('flatten', 'ravel'):
+      # T-NP: order 'C' (the default) lists the elements in logical row-major order whatever the memory layout;
+      # 'K' / 'A' / 'F' list them in memory / Fortran order, which is the row-major order only for C-contiguous data
+      order = args[0] if args else kwargs.get('order', 'C')
+      if order is None:
+        order = 'C'
+      if order == 'C':
+        return FlatV(self)
+      if order in ('K', 'A', 'F'):
+        lay = z3.Const('memory_layout', z3.IntSort())      # of this (arbitrary) input array
+        ctx.model_vars['memory_layout'] = lay
+        reordered = MEMORDER(self.vals, self.shape, lay, z3.StringVal(order))
+        # a reordering keeps "empty" and "every element is bytes"
+        ctx.assume(z3.And(EMPTY(reordered) == EMPTY(self.vals), ALLBYTES(reordered) == ALLBYTES(self.vals),
+                          z3.Implies(ALLBYTES(reordered), z3.Or(EMPTY(reordered), FIRSTBYTES(reordered)))))
+        return FlatV(ArrV(self.shape, self.dt, reordered))
+      raise Unsupported(f'{name}(order={order!r})')
     raise Unsupported(f'ndarray.{name}')
 
   def getitem(self, ctx, idx):
@@ -190,6 +205,7 @@ class FlatV(Val):
     return PerElemV(self.arr, v)
 
 
+MEMORDER = z3.Function('elements_in_memory_order', Vals, ShapeS, z3.IntSort(), z3.StringSort(), Vals)
 EMPTY = z3.Function('is_empty', Vals, B)
 ALLBYTES = z3.Function('all_elements_are_bytes', Vals, B)
 FIRSTBYTES = z3.Function('first_element_is_bytes', Vals, B)
